@@ -102,6 +102,13 @@ type RecTransport struct {
 	// (nothing in the transport interface obliges it to fail); Close is still recorded.
 	AcceptAfterClose bool
 
+	// HonourDeadlines: behave like a net.Conn with respect to SetWriteDeadline - a Write/Writev entered after the
+	// armed deadline has passed fails with a timeout net.Error. Time is the wall clock plus a skew the harness
+	// advances explicitly (AdvanceClock), so that "the deadline passed" is decided by the harness, not by load.
+	HonourDeadlines bool
+	wdl             time.Time
+	skew            time.Duration
+
 	// CloseErr is returned by the Close call that actually closes (a transport may report a failed goodbye,
 	// e.g. TLS close_notify on a broken pipe, and still be closed).
 	CloseErr error
@@ -159,6 +166,9 @@ func (t *RecTransport) write(kind string, bufs [][]byte) (int64, error) {
 		op.Rejected = true
 	} else if ferr := t.faultFor(kind); ferr != nil {
 		err = ferr
+		op.Rejected = true
+	} else if t.HonourDeadlines && !t.wdl.IsZero() && !time.Now().Add(t.skew).Before(t.wdl) {
+		err = errWriteDeadline{}
 		op.Rejected = true
 	}
 	data := make([]byte, 0, n)
@@ -361,12 +371,44 @@ func (t *RecTransport) ScriptExhausted() bool {
 	return t.stepIdx >= len(t.steps)
 }
 
-func (t *RecTransport) LocalAddr() net.Addr              { return Addr("mock-local:1") }
-func (t *RecTransport) RemoteAddr() net.Addr             { return Addr("mock-remote:2") }
-func (t *RecTransport) SetDeadline(time.Time) error      { return nil }
-func (t *RecTransport) SetReadDeadline(time.Time) error  { return nil }
-func (t *RecTransport) SetWriteDeadline(time.Time) error { return nil }
-func (t *RecTransport) RawTransport() interface{}        { return t }
+func (t *RecTransport) LocalAddr() net.Addr             { return Addr("mock-local:1") }
+func (t *RecTransport) RemoteAddr() net.Addr            { return Addr("mock-remote:2") }
+func (t *RecTransport) SetDeadline(d time.Time) error   { return t.SetWriteDeadline(d) }
+func (t *RecTransport) SetReadDeadline(time.Time) error { return nil }
+func (t *RecTransport) SetWriteDeadline(d time.Time) error {
+	t.mu.Lock()
+	t.wdl = d
+	t.mu.Unlock()
+	return nil
+}
+
+// Now is the transport's clock (wall clock + skew).
+func (t *RecTransport) Now() time.Time {
+	t.mu.Lock()
+	defer t.mu.Unlock()
+	return time.Now().Add(t.skew)
+}
+
+// AdvanceClock moves the transport's clock forward.
+func (t *RecTransport) AdvanceClock(d time.Duration) {
+	t.mu.Lock()
+	t.skew += d
+	t.mu.Unlock()
+}
+
+// WriteDeadline returns the currently armed write deadline (zero = none).
+func (t *RecTransport) WriteDeadline() time.Time {
+	t.mu.Lock()
+	defer t.mu.Unlock()
+	return t.wdl
+}
+
+type errWriteDeadline struct{}
+
+func (errWriteDeadline) Error() string            { return "mock transport: write: i/o timeout" }
+func (errWriteDeadline) Timeout() bool            { return true }
+func (errWriteDeadline) Temporary() bool          { return true }
+func (t *RecTransport) RawTransport() interface{} { return t }
 
 // Snapshot returns copies of the op log and the accepted wire bytes.
 func (t *RecTransport) Snapshot() ([]Op, []byte) {
